@@ -78,20 +78,34 @@ theorem derive_ops' {β : Type} (h : Heap β) (r : Nat) (op : Op β) :
     (derive h r op).1.getD (derive h r op).2 [] = h.getD r [] ++ [op] := by
   simp [derive, List.getD_eq_getElem?_getD]
 
-/- `hr` is not needed: `List.getD` defaults to `[]`, which is what the model copies. -/
-set_option linter.unusedVariables false in
-theorem derive_ops {β : Type} (h : Heap β) (r : Nat) (op : Op β) (hr : r < h.length) :
-    (derive h r op).1.getD (derive h r op).2 [] = h.getD r [] ++ [op] :=
-  derive_ops' h r op
-
-set_option linter.unusedVariables false in
+/-- `getD` form (also answers a dangling address, with "no operations"); the property theorem is `evalCols_eq_eager_at` -/
 theorem evalCols_eq_eager {β : Type} (h : Heap β) (parts : List (List (List β))) (r : Nat)
-    (it : Item) (c : ColSel) (hr : r < h.length) (hd : InDom parts.flatten.length it) :
+    (it : Item) (c : ColSel) (hd : InDom parts.flatten.length it) :
     evalCols h parts r it c =
       npRows (applyOps (h.getD r [] ++ [.cols c]) parts.flatten) it := by
   unfold evalCols
   simp only
   rw [eval_eq_eager _ parts _ it hd, derive_ops']
+
+/-! ### Statements at the address that EXISTS (`h[r]`, not `h.getD r []`)
+
+In the real code a reader object always carries an `_ops` list (`BaseEphysReader.__init__`, traces.py:187-188;
+`_append_op` gives every clone one, traces.py:240-245): a reader is always a live address of the heap it was derived
+in. The lemmas above are stated with `List.getD`, whose default `[]` also answers a dangling address ("no operations");
+the property theorems are stated with `h[r]` under `r < h.length`, so that none of them holds through the default. -/
+
+theorem getD_of_lt {β : Type} (h : Heap β) (r : Nat) (hr : r < h.length) : h.getD r [] = h[r] := by
+  simp [List.getD_eq_getElem?_getD, List.getElem?_eq_getElem hr]
+
+theorem eval_eq_eager_at {β : Type} (h : Heap β) (parts : List (List (List β))) (r : Nat) (it : Item)
+    (hr : r < h.length) (hd : InDom parts.flatten.length it) :
+    eval h parts r it = npRows (applyOps h[r] parts.flatten) it := by
+  rw [eval_eq_eager h parts r it hd, getD_of_lt h r hr]
+
+theorem evalCols_eq_eager_at {β : Type} (h : Heap β) (parts : List (List (List β))) (r : Nat)
+    (it : Item) (c : ColSel) (hr : r < h.length) (hd : InDom parts.flatten.length it) :
+    evalCols h parts r it c = npRows (applyOps (h[r] ++ [.cols c]) parts.flatten) it := by
+  rw [evalCols_eq_eager h parts r it c hd, getD_of_lt h r hr]
 
 theorem derive_length {β : Type} (h : Heap β) (r : Nat) (op : Op β) :
     (derive h r op).1.length = h.length + 1 := by
@@ -111,5 +125,54 @@ theorem derivations_preserve {β : Type} (h : Heap β) (ds : List (Nat × Op β)
     obtain ⟨r, op⟩ := d
     show (runDerivations (derive h r op).1 ds).getD r' [] = _
     rw [ih _ (by rw [derive_length]; omega), derive_preserves_others h r op r' hr']
+
+/-- the clone's address is live in the new heap (closure) and holds the parent's operations plus the new one -/
+theorem derive_ops_at {β : Type} (h : Heap β) (r : Nat) (op : Op β) (hr : r < h.length) :
+    (derive h r op).1[(derive h r op).2]? = some (h[r] ++ [op]) := by
+  have h1 := derive_ops' h r op
+  have h2 : (derive h r op).2 < (derive h r op).1.length := by
+    rw [derive_length]; simp [derive]
+  rw [getD_of_lt _ _ h2, getD_of_lt h r hr] at h1
+  rw [List.getElem?_eq_getElem h2, h1]
+
+theorem derive_preserves_others_at {β : Type} (h : Heap β) (r : Nat) (op : Op β) (r' : Nat)
+    (hr' : r' < h.length) :
+    (derive h r op).1[r']? = some h[r'] := by
+  have h1 := derive_preserves_others h r op r' hr'
+  have h2 : r' < (derive h r op).1.length := by rw [derive_length]; omega
+  rw [getD_of_lt _ _ h2, getD_of_lt h r' hr'] at h1
+  rw [List.getElem?_eq_getElem h2, h1]
+
+theorem runDerivations_length {β : Type} (h : Heap β) (ds : List (Nat × Op β)) :
+    (runDerivations h ds).length = h.length + ds.length := by
+  induction ds generalizing h with
+  | nil => rfl
+  | cons d ds ih =>
+    obtain ⟨r, op⟩ := d
+    show (runDerivations (derive h r op).1 ds).length = _
+    rw [ih, derive_length, List.length_cons]; omega
+
+theorem derivations_preserve_at {β : Type} (h : Heap β) (ds : List (Nat × Op β)) (r' : Nat)
+    (hr' : r' < h.length) :
+    (runDerivations h ds)[r']? = some h[r'] := by
+  have h1 := derivations_preserve h ds r' hr'
+  have h2 : r' < (runDerivations h ds).length := by rw [runDerivations_length]; omega
+  rw [getD_of_lt _ _ h2, getD_of_lt h r' hr'] at h1
+  rw [List.getElem?_eq_getElem h2, h1]
+
+/-- what an existing reader RETURNS is unchanged by any derivation history: every index expression, in or out of
+domain (both sides are the same function of the same operation list) -/
+theorem derivations_preserve_eval {β : Type} (h : Heap β) (ds : List (Nat × Op β)) (parts : List (List (List β)))
+    (r' : Nat) (hr' : r' < h.length) (it : Item) :
+    eval (runDerivations h ds) parts r' it = eval h parts r' it := by
+  unfold eval
+  rw [derivations_preserve h ds r' hr']
+
+theorem derivations_preserve_evalCols {β : Type} (h : Heap β) (ds : List (Nat × Op β)) (parts : List (List (List β)))
+    (r' : Nat) (hr' : r' < h.length) (it : Item) (c : ColSel) :
+    evalCols (runDerivations h ds) parts r' it c = evalCols h parts r' it c := by
+  unfold evalCols eval
+  simp only
+  rw [derive_ops', derive_ops', derivations_preserve h ds r' hr']
 
 end PhyVerif.C02.Lemmas
